@@ -11,9 +11,13 @@ for _name in ("ops_time", "ops_cfdp", "ops_uslp", "ops_util", "ops_srv1", "ops_m
 
 
 def perform(op, a):
+    from . import core
+    core.CURRENT[:] = [op, a]
     return OPS[op](a)
 
 
 def record(op, a):
     """One recorded call: the event logged at the public call's return."""
+    from . import core
+    core.CURRENT[:] = [op, a]
     return {"op": op, "a": a, "o": OPS[op](a)}
